@@ -264,7 +264,11 @@ PROPS = {
         design=[(CORE, [Q1], ["MC_RainCore_small.cfg", "MC_RainCore_pins.cfg"])],
         switches=[("Bug_RangeMin", CORE, "MC_RainCore_range.cfg", None),
                   ("Bug_FlushLevelUnsafe", CORE, Q1, "ReadCorrect")],
-        work=[dict(driver="hist", args=["--nops", "60", "--per-file", "6"], quick=48, thorough=1200)]),
+        work=[dict(driver="hist", args=["--nops", "60", "--per-file", "6"], quick=48, thorough=1200),
+              # narrow, staircase-like overlapping level-0 files (key locality + frequent flushes)
+              dict(driver="hist", args=["--nops", "80", "--per-file", "6", "--profile", "local",
+                                        "--nkeys", "12", "--compact-bias", "1"],
+                   quick=32, thorough=800)]),
     "C03": dict(
         design=[(CORE, [Q1], ["MC_RainCore_small.cfg", "MC_RainCore_pins.cfg"])],
         switches=[("Bug_DropAboveSnapshot", CORE, Q1, "ReadCorrect"),
@@ -277,7 +281,10 @@ PROPS = {
         switches=[("Bug_NoBoundary", CORE, Q1, None), ("Bug_DropTombNoBase", CORE, Q1, None),
                   ("Bug_ImmDropEarly", CORE, Q1, None)],
         work=[dict(driver="hist", args=["--nops", "70", "--per-file", "6", "--compact-bias", "1"],
-                   quick=48, thorough=1200)]),
+                   quick=48, thorough=1200),
+              dict(driver="hist", args=["--nops", "80", "--per-file", "6", "--profile", "local",
+                                        "--nkeys", "12", "--compact-bias", "1"],
+                   quick=32, thorough=800)]),
     "C10": dict(
         design=[(CORE, [Q1], ["MC_RainCore_small.cfg"])],
         switches=[("Bug_RangeMin", CORE, "MC_RainCore_range.cfg", None)],
@@ -316,9 +323,12 @@ PROPS = {
               dict(driver="fault", args=["--nops", "14", "--positions", "40", "--large"], quick=2,
                    thorough=20, one_per_proc=True)]),
     "C05": dict(
-        design=[(CONC, ["MC_RainConc_small.cfg"], ["MC_RainConc_small.cfg"])],
+        design=[(CONC, ["MC_RainConc_small.cfg"], ["MC_RainConc_small.cfg"]),
+                ("MC_RainCache.tla", ["MC_RainCache_small.cfg"], ["MC_RainCache_big.cfg"])],
         switches=[("Bug_GetLoadsMemAfterUnlock", CONC, "MC_RainConc_small.cfg", "Linearizable"),
-                  ("Bug_PublishEarly", CONC, "MC_RainConc_small.cfg", "Linearizable")],
+                  ("Bug_PublishEarly", CONC, "MC_RainConc_small.cfg", "Linearizable"),
+                  ("Bug_NewIdNotAtomic", "MC_RainCache.tla", "MC_RainCache_small.cfg", "UniqueIds"),
+                  ("Bug_KeyWithoutId", "MC_RainCache.tla", "MC_RainCache_small.cfg", "ReadsRightBlock")],
         trace=CONC_TRACE,
         work=[dict(driver="sched", args=["--all"], quick=2, thorough=12, final_rc3=True)]),
     "C06": dict(
